@@ -13,8 +13,8 @@ import runner
 
 def extra_C07(tier, seed, stage, res, problems, extra_info, workdir):
     """Thorough: the stress suite again with a race-detector build of the harness."""
-    if tier != 'thorough':
-        extra_info['race_detector'] = 'not run in the quick tier'
+    if tier != 'thorough' and not problems and not res.mismatches:
+        extra_info['race_detector'] = 'not run in the quick tier (runs in the thorough tier, and in any tier as part of the search when an obligation is broken)'
         return
     exe = runner.BUILD + '/harness.race'
     cmd = ['go', 'build', '-race', '-tags', 'verif', '-overlay', runner.BUILD + '/overlay.json', '-o', exe, './internal/verifdrv']
